@@ -64,10 +64,13 @@ def decode_packets(fmt, pks, ts, dec=None):
     dec = dec or NMEA2000Decoder()
     res = None
     for p in pks:
-        if fmt == "ebyte":
-            res = dec.decode_tcp(p)
-        elif fmt == "usb":
-            res = dec.decode_usb(p)
+        if fmt in ("ebyte", "usb"):
+            # the receiver reads every packet into a buffer it owns and overwrites afterwards
+            buf = bytearray(p)
+            try:
+                res = dec.decode_tcp(buf) if fmt == "ebyte" else dec.decode_usb(memoryview(buf) if len(p) % 2 == 0 and len(pks) % 2 else buf)
+            finally:
+                buf[:] = b"\xee" * len(buf)
         elif fmt == "yd":
             res = dec.decode_yacht_devices_string("%s R %s" % (ts[1], p.decode().strip()))
         else:
@@ -141,6 +144,28 @@ class Checker:
         if fields_tuple(back) != fields_tuple(m):
             diff = [x[0] for x, y in zip(fields_tuple(back), fields_tuple(m)) if x != y]
             out.append((f"C06|roundtrip-fields|{fmt}", f"fields differ after {fmt} round trip: {diff}", case))
+        # the application replaces a field OBJECT of the message it holds (msg.fields[i] = NMEA2000Field(...)) and sends it again
+        if not out:
+            from nmea2000.message import NMEA2000Field, NMEA2000Message
+            alt = gen.benign_message(d)
+            if alt is not None and len(alt.fields) == len(m.fields):
+                idx = [i for i, (a_, b_) in enumerate(zip(m.fields, alt.fields)) if (a_.value, a_.raw_value) != (b_.value, b_.raw_value)]
+                if idx:
+                    try:
+                        encode(self.Enc(), fmt, m)           # (the message has been sent once: whatever the library remembers about it exists now)
+                        i = idx[len(idx) // 2]
+                        f_alt = alt.fields[i]
+                        m.fields[i] = NMEA2000Field(id=f_alt.id, name=f_alt.name, value=f_alt.value, raw_value=f_alt.raw_value)
+                        again = encode(self.Enc(), fmt, m)
+                        fresh = encode(self.Enc(), fmt, NMEA2000Message(PGN=m.PGN, id=m.id, source=m.source, destination=m.destination, priority=m.priority,
+                                                                        fields=[NMEA2000Field(id=x.id, name=x.name, value=x.value, raw_value=x.raw_value) for x in m.fields]))
+                    except ValueError:
+                        again = fresh = None
+                    if again is not None:
+                        ctx.klass("field_object_replaced")
+                        if again != fresh:
+                            out.append((f"C06|field-object-replaced|{fmt}", f"field {m.fields[i].id} replaced by a new field object and the message sent again: packets differ from "
+                                        f"those of a new message with the same content", dict(case, field_replaced=True)))
         # the same packets into a decoder that has received many messages before (from senders that each started a new encoder)
         try:
             back2 = decode_packets(fmt, pks, ts, self.rx)
